@@ -56,8 +56,13 @@ Not generated (several encodings or no documented rule):
   * MOVM/CMPM lengths beyond 16 bytes, EXT/INS lengths outside 1..32 (a displacement could hold them)
   * MEI/DEI with an odd destination register (register pair), L operands in odd FPU registers on the
     NS32081, floating-point immediates, CINV/MMU/custom-slave instructions, BITBLT group of the NS32CG16,
-    the empty register list `[]` (see proposed/C14) and SETCFG options beyond I F M C
+    SETCFG options beyond I F M C
   * LPR/SPR in operand sizes other than the natural one of the register (UPSR: B/W, PSR/MOD: W, others: D)
+
+Tables: NS32016 (FPU NS32081) and NS32532 (FPU NS32381, six more processor registers, base address
+30000000h so that both limits of the 30-bit displacement are inside the 4 GByte address space) are assembled
+with SUPMODE ON; NS32032-user holds the privileged instructions and is assembled without it (the manual
+documents a warning, not an error, for them).
 """
 from .common import Form, Int, Enum, Rel, Isa
 
@@ -483,8 +488,8 @@ def build(cfg):
     for mn, op in (("RETI", 0x52), ("NOP", 0xa2), ("WAIT", 0xb2), ("DIA", 0xc2), ("FLAG", 0xd2), ("SVC", 0xe2),
                    ("BPT", 0xf2)):
         T.add(mn, [], (lambda op: lambda pv: bytes([op]))(op))
-    edges = [1 << n for n in range(8)] + [0xff, 0x85, 0x55, 0xaa, 0x0f, 0xf0, 0x03, 0xc0, 0x7e, 0x81]
-    rl = lambda: Piece("[list]", "{}", [Subset(R, 1, edges)])
+    edges = [1 << n for n in range(8)] + [0xff, 0, 0x85, 0x55, 0xaa, 0x0f, 0xf0, 0x03, 0xc0, 0x7e, 0x81]
+    rl = lambda: Piece("[list]", "{}", [Subset(R, 0, edges)])
     # SAVE / ENTER: bit n = Rn; RESTORE / EXIT: the mirror image (R0 = bit 7), so that the registers come
     # back in the opposite order
     T.add("SAVE", [rl()], lambda pv: bytes([0x62, pv[0][0]]))
@@ -676,11 +681,22 @@ PREG532.update({"DCR": (1, "D"), "BPC": (2, "D"), "DSR": (3, "D"), "CAR": (4, "D
 CFG16 = dict(shift=1, abshi=(1 << 23) - 1, rlo=-0x3fff00, rhi=0x3fff00, rrej=False, preg=PREG16, fpu="ns32081")
 CFG532 = dict(shift=4, abshi=DHI, rlo=DLO, rhi=DHI, rrej=True, preg=PREG532, fpu="ns32381")
 
+
+def privileged(cfg):
+    """the instructions National marks privileged plus the format 0/1 group, for a program WITHOUT `SUPMODE ON`:
+    doc/pseudo-instructions.md documents a warning for them, the encoding is the same"""
+    keep = ("LPR", "SPR", "SETCFG", "BICPSR", "BISPSR", "RETT", "RETI", "NOP", "WAIT", "BR ", "BSR", "RET ")
+    return [f for f in build(cfg) if f.name.startswith(keep)]
+
+
 ISAS = [
     Isa("NS32016", "NS32016", build(CFG16), "intel", pcsym="*", slot=32, base=0x400000, maxaddr=0xffffff,
         offsets=[0, 1, 3, 6], prologue=["\tsupmode\ton", "\tfpu\tns32081"], golden=[("t_ns32k", {"ns32016": True})]),
     Isa("NS32532", "NS32532", build(CFG532), "intel", pcsym="*", slot=32, base=0x30000000, maxaddr=0xffffffff,
         offsets=[0, 1, 3, 6], prologue=["\tsupmode\ton", "\tfpu\tns32381"], golden=[("t_ns32k", {"ns32532": True})]),
+    # same core as the NS32016; user-mode program (SUPMODE stays off)
+    Isa("NS32032-user", "NS32032", privileged(dict(CFG16, shift=2)), "intel", pcsym="*", slot=32, base=0x400000,
+        maxaddr=0xffffff, offsets=[0, 1, 3, 6]),
 ]
 
 
